@@ -84,7 +84,9 @@ TagOps == {"tag-unknown-name", "tag-empty", "tag-hex-bad", "tag-hex-unregistered
            "tag-hex-wide-own", "tag-hex-wide-unregistered"}
 TypeOps == {"type-unknown", "type-empty", "type-lowercase"} \cup {"type-as:" \o t : t \in Types}
 LeafValueOps == {"value-missing", "value-empty", "value-garbage", "value-hex-odd", "value-0x", "value-huge", "value-negative", "value-float", "value-spaces", "value-long"}
-TreeOps == {"drop-node", "dup-node", "swap-with-next"}
+\* ("nest-under-previous": the node is moved into a structure with an unregistered tag appended to its previous sibling, when that one
+\* is a structure - the node is then no member of its former parent any more, in any encoding)
+TreeOps == {"drop-node", "dup-node", "swap-with-next", "nest-under-previous"}
 LeafShapeOps == {"leaf-with-children", "type-missing"}
 StructShapeOps == {"struct-empty", "struct-with-value", "struct-with-leaf-type-and-value"}
 \* the node's own kind (JSON)
